@@ -387,6 +387,56 @@ Definition stop_halts (t : list entry) : bool :=
   && match exec_info (e_exec e) 0 with Some x => match x_class x with XPlain => true | _ => false end | None => false end.
 Definition wf_table (t : list entry) : bool := (Z.of_nat (List.length t) =? 256) && wf_table_from 0 t && stop_halts t.
 
+(* ---- what the go/ast extractor (harness/c11ext) reads off an execute function's body ------------------
+   deepest stack slot touched and net stack effect as a + b*n (n = constructor parameter of makeLog/makeDup/
+   makeSwap/makePush), memory accesses (offset operand, literal addend, size operand or literal),
+   guards `if operand.Uint64() < K { return }`, the evm entry point it calls, the operand guarding CallStipend.
+   [exec_matches] is the comparison of that with exec_info; the harness evaluates it on every run. *)
+Definition access := (nat * Z * lenspec)%type.
+Record ginfo := mkG { g_deep : Z * Z; g_delta : Z * Z; g_acc : list access; g_guards : list (nat * Z);
+                      g_class : Z; g_stip : option nat; g_ok : bool }.
+
+Definition maker_n (name : string) (opc : Z) : Z :=
+  if String.eqb name "makeLog" then opc - 160
+  else if String.eqb name "makeDup" then opc - 127
+  else if String.eqb name "makeSwap" then opc - 143
+  else if String.eqb name "makePush" then opc - 95
+  else 0.
+
+(* an access is justified by the declared regions: either it is one of them, or it reads a literal window
+   [off+c, off+c+n) of a region (off, LArg j) behind a guard that operand j is at least c+n *)
+Definition acc_justified (guards : list (nat * Z)) (regs : list region) (a : access) : bool :=
+  let '(i, c, sz) := a in
+  ((c =? 0) && region_in (i, sz) regs)
+  || match sz with
+     | LConst n =>
+         (0 <=? c) && (0 <? n)
+         && existsb (fun r => match r with
+                              | (i', LArg j) => Nat.eqb i i' && existsb (fun g => Nat.eqb (fst g) j && (c + n <=? snd g)) guards
+                              | _ => false
+                              end) regs
+     | LArg _ => false
+     end.
+
+Definition class_code (c : xclass) : Z :=
+  match c with XPlain => 0 | XCall None => 1 | XCall (Some _) => 2 | XCreate => 3 end.
+Definition opt_nat_eqb (a b : option nat) : bool :=
+  match a, b with Some x, Some y => Nat.eqb x y | None, None => true | _, _ => false end.
+
+Definition exec_matches (name : string) (opc : Z) (g : ginfo) : bool :=
+  match exec_info name opc with
+  | None => false
+  | Some x =>
+    let n := maker_n name opc in
+    g_ok g
+    && (x_pops x =? fst (g_deep g) + snd (g_deep g) * n)
+    && (x_pushes x =? x_pops x + fst (g_delta g) + snd (g_delta g) * n)
+    && (class_code (x_class x) =? g_class g)
+    && opt_nat_eqb (match x_class x with XCall s => s | _ => None end) (g_stip g)
+    && forallb (acc_justified (g_guards g) (x_mem x)) (g_acc g)
+    && forallb (fun r => existsb (acc_justified (g_guards g) [r]) (g_acc g)) (x_mem x)
+  end.
+
 (* ---- the interpreter ------------------------------------------------------------------------- *)
 Record config := mkCfg { c_tab : list entry; c_p026 : bool; c_p015 : bool }.
 Record env := mkEnv { v_code : list Z; v_ro : bool; v_depth : Z; v_insz : Z }.
@@ -409,6 +459,8 @@ Inductive plan :=
 | CImm (keep_gas ok : bool) (retsize : Z)          (* returns at once: depth, balance, no code, collision... *)
 | CPre (cost : Z) (ok : bool) (retsize : Z)        (* precompiled contract: RequiredGas, then Run *)
 | CEnter (code : list Z) (ro : bool) (insz : Z)    (* a new frame *)
+| CRefused                                         (* evm.create on a sub-chain: creator not whitelisted — checked
+                                                      before the depth limit, returns no gas *)
 | CUnsupported.                                    (* concrete oracles only *)
 
 Record oracle (W : Type) := mkO {
@@ -522,6 +574,7 @@ Section Interp.
             else S1Next (after ok (if ok then given - cost else 0) rsz) w'
         | (CEnter code ro insz, w') =>
             S1Call (mkEnv code (v_ro env || ro) (v_depth env + 1) insz) (new_frame given) w' (mkK KCall parent 0)
+        | (CRefused, w') => S1Next (after false 0 0) w'
         | (CUnsupported, w') => S1Done (OFault FUnmodelled) w'
         end
       | XCreate =>
@@ -530,14 +583,19 @@ Section Interp.
         let parent := mkF (f_pc fr1) rest (f_mlen fr1) (f_fee fr1) g3 (f_rds fr1) in
         let after (v : Z) (retgas rsz : Z) :=
           mkF (f_pc fr1 + 1) (v :: rest) (f_mlen fr1) (f_fee fr1) (g3 + retgas) (Z.max 0 rsz) in
-        if CALL_DEPTH <? v_depth env then S1Next (after 0 given 0) w
-        else match o_plan orc opc env fr1 w with
-        | (CImm keep ok rsz, w') => S1Next (after 0 (if keep then given else 0) 0) w'
-        | (CPre _ _ _, w') => S1Next (after 0 0 0) w'                         (* not applicable to creates *)
-        | (CEnter code ro insz, w') =>
+        match o_plan orc opc env fr1 w with
+        | (CRefused, w') => S1Next (after 0 0 0) w'
+        | (pl, w') =>
+        if CALL_DEPTH <? v_depth env then S1Next (after 0 given 0) w'
+        else match pl with
+        | CImm keep ok rsz => S1Next (after 0 (if keep then given else 0) 0) w'
+        | CPre _ _ _ => S1Next (after 0 0 0) w'                               (* not applicable to creates *)
+        | CEnter code ro insz =>
             S1Call (mkEnv code (v_ro env) (v_depth env + 1) 0) (new_frame given) w'
                    (mkK KCreate parent (o_word orc opc env fr1 w mod W256))
-        | (CUnsupported, w') => S1Done (OFault FUnmodelled) w'
+        | CRefused => S1Next (after 0 0 0) w'
+        | CUnsupported => S1Done (OFault FUnmodelled) w'
+        end
         end
       end
     end.
